@@ -28,6 +28,9 @@ func genC18(r *Rand, sc *Scenario, tier string) {
 	for i := 0; i < ndocs; i++ {
 		sc.Docs = append(sc.Docs, genC18Doc(r))
 	}
+	if r.Chance(1, 3) {
+		sc.Cfg["docs-in-one-arena"] = 1
+	}
 	if r.Chance(1, 60) {
 		// every task recurses deep through the public traversal functions at the same time
 		sc.Docs = nil
@@ -301,10 +304,43 @@ func genC18Sweep(sc *Scenario) {
 
 func buildDocs(sc *Scenario) [][]byte {
 	docs := make([][]byte, len(sc.Docs))
+	if sc.cfg("docs-in-one-arena") == 1 {
+		// one read buffer holds all messages back to back, every task parses its own window of it:
+		// the spare capacity behind a window is the next tasks' input, plus some slack at the end
+		total := 64
+		for _, d := range sc.Docs {
+			total += d.Len()
+		}
+		arena := make([]byte, 0, total)
+		offs := make([]int, len(sc.Docs)+1)
+		for i, d := range sc.Docs {
+			offs[i] = len(arena)
+			arena = append(arena, d.Bytes()...)
+		}
+		offs[len(sc.Docs)] = len(arena)
+		full := arena[:total]
+		for i := len(arena); i < total; i++ {
+			full[i] = poisonByte
+		}
+		for i := range sc.Docs {
+			docs[i] = arena[offs[i]:offs[i+1]] // capacity runs on to the end of the arena
+		}
+		return docs
+	}
 	for i, d := range sc.Docs {
 		docs[i] = d.Bytes()
 	}
 	return docs
+}
+
+// docsEqual compares the documents including everything within their capacity.
+func docsEqual(a, b [][]byte) int {
+	for i := range a {
+		if !bytes.Equal(a[i][:cap(a[i])], b[i][:cap(b[i])]) {
+			return i
+		}
+	}
+	return -1
 }
 
 // runSequential is the reference: every task's operations, one task after another.
@@ -427,10 +463,8 @@ func (c18b) Exec(sc *Scenario, st *Stats) *Violation {
 			st.ev(op.Kind)
 		}
 	}
-	for i := range docs {
-		if !bytes.Equal(docs[i], snap[i]) {
-			return &Violation{Class: "shared-input-modified", Task: -1, Op: -1, Sig: "C18/shared-input-modified", Detail: fmt.Sprintf("shared document %d was modified", i)}
-		}
+	if i := docsEqual(docs, snap); i >= 0 {
+		return &Violation{Class: "shared-input-modified", Task: -1, Op: -1, Sig: "C18/shared-input-modified", Detail: fmt.Sprintf("shared document %d (or the bytes within its capacity) was modified", i)}
 	}
 	return compareRuns(sc, seq, con, "run concurrently (free-running)")
 }
